@@ -1,9 +1,9 @@
 (** Extraction roots of the [Gen.decode] model together with the variable-layout
     model it is built on (driver: extract/drv_decode.ml, which also serves the
     layout commands so that checks C14 and C26 need a single binary). *)
-From SP Require Design.Flat Design.Layout Sample.Decode.
+From SP Require Design.Flat Design.Layout Design.LayoutWf Sample.Decode Sample.DecodeWf.
 Definition roots :=
-  (Sample.Decode.decode, Sample.Decode.zsort,
+  (Sample.Decode.decode, Sample.Decode.zsort, Design.LayoutWf.wf_layout, Sample.DecodeWf.act_keys_distinct,
    Design.Layout.variables_per_trial, Design.Layout.grid_variables, Design.Layout.variables_per_sample,
    Design.Layout.variables_for_factor, Design.Layout.first_variable_for_level, Design.Layout.encode_variable,
    Design.Layout.factor_variables_for_trial, Design.Layout.variable_list_for_trial, Design.Layout.support_variables,
